@@ -126,15 +126,19 @@ func (c pcfg) sizeArg() uint64 {
 // current genuine session sends and is heard once more (so fresh, already delivered packets of it
 // exist), the genuine session switches, and the new session's first packet is presented.
 func drawPlan(rt *rapid.T, clientSide bool) []step {
-	// per-case temperament: how often time moves in big steps inside the free part
-	slow := rapid.IntRange(0, 2).Draw(rt, "tempo")
 	attempts := 0
 	if clientSide {
 		attempts = rapid.SampledFrom([]int{0, 0, 1, 1, 2, 2, 3}).Draw(rt, "attempts")
 	}
+	return drawPlanN(rt, clientSide, 90, attempts, rapid.IntRange(0, 2).Draw(rt, "tempo"))
+}
+
+// drawPlanN is drawPlan with the size knobs exposed: at most maxSteps free steps in total,
+// `attempts` scripted change attempts, tempo `slow` (0: only small clock steps in the free part).
+func drawPlanN(rt *rapid.T, clientSide bool, maxSteps, attempts, slow int) []step {
 	var plan []step
 	for seg := 0; seg <= attempts; seg++ {
-		n := rapid.IntRange(1, 90/(attempts+1)).Draw(rt, "steps")
+		n := rapid.IntRange(1, max(1, maxSteps/(attempts+1))).Draw(rt, "steps")
 		for i := 0; i < n; i++ {
 			plan = append(plan, drawStep(rt, clientSide, slow))
 		}
@@ -308,37 +312,58 @@ type endpoint struct {
 	csid     uint64
 }
 
-func newEndpoint(c pcfg, salt uint64) (*endpoint, error) {
-	e := &endpoint{keys: makeKeys(c, salt), wrong: makeKeys(c, salt^0xdeadbeefcafef00d)}
-	ccc, err := ss2022.NewClientCipherConfig(e.keys.PSK, e.keys.IPSKs, true)
+// peer is one long-lived pair of objects as the service holds them: one ss2022.UDPClient (every
+// NAT session routed to it calls NewSession on the same object) and one ss2022.UDPServer.
+type peer struct {
+	keys   ssudp.Keys
+	wrong  ssudp.Keys
+	client *ss2022.UDPClient
+	server *ss2022.UDPServer
+}
+
+func newPeer(c pcfg, salt uint64) (*peer, error) {
+	p := &peer{keys: makeKeys(c, salt), wrong: makeKeys(c, salt^0xdeadbeefcafef00d)}
+	ccc, err := ss2022.NewClientCipherConfig(p.keys.PSK, p.keys.IPSKs, true)
 	if err != nil {
 		return nil, err
 	}
-	cli := ss2022.NewUDPClient("c", "ip", conn.AddrFromIPPort(pktServerAddr), 1500, conn.DefaultUDPClientListenConfig, c.sizeArg(), ccc, ss2022.NoPadding)
-	info, sess, err := cli.NewSession(context.Background())
-	if err != nil {
-		return nil, err
-	}
-	e.session, e.headroom = sess, info.PackerHeadroom
+	p.client = ss2022.NewUDPClient("c", "ip", conn.AddrFromIPPort(pktServerAddr), 1500, conn.DefaultUDPClientListenConfig, c.sizeArg(), ccc, ss2022.NoPadding)
 	if c.EIH {
-		icc, err := ss2022.NewServerIdentityCipherConfig(e.keys.IPSKs[0], true)
+		icc, err := ss2022.NewServerIdentityCipherConfig(p.keys.IPSKs[0], true)
 		if err != nil {
 			return nil, err
 		}
-		e.server = ss2022.NewUDPServer(c.sizeArg(), ss2022.UserCipherConfig{}, icc, ss2022.NoPadding)
-		succ, err := ss2022.NewServerUserCipherConfig("u", e.keys.PSK, true)
+		p.server = ss2022.NewUDPServer(c.sizeArg(), ss2022.UserCipherConfig{}, icc, ss2022.NoPadding)
+		succ, err := ss2022.NewServerUserCipherConfig("u", p.keys.PSK, true)
 		if err != nil {
 			return nil, err
 		}
-		e.server.ReplaceUserLookupMap(ss2022.UserLookupMap{ss2022.PSKHash(e.keys.PSK): succ})
+		p.server.ReplaceUserLookupMap(ss2022.UserLookupMap{ss2022.PSKHash(p.keys.PSK): succ})
 	} else {
-		ucc, err := ss2022.NewUserCipherConfig(e.keys.PSK, true)
+		ucc, err := ss2022.NewUserCipherConfig(p.keys.PSK, true)
 		if err != nil {
 			return nil, err
 		}
-		e.server = ss2022.NewUDPServer(c.sizeArg(), ucc, ss2022.ServerIdentityCipherConfig{}, ss2022.NoPadding)
+		p.server = ss2022.NewUDPServer(c.sizeArg(), ucc, ss2022.ServerIdentityCipherConfig{}, ss2022.NoPadding)
 	}
-	return e, nil
+	return p, nil
+}
+
+// open starts a new client session on the peer's client object.
+func (p *peer) open() (*endpoint, error) {
+	info, sess, err := p.client.NewSession(context.Background())
+	if err != nil {
+		return nil, err
+	}
+	return &endpoint{keys: p.keys, wrong: p.wrong, session: sess, headroom: info.PackerHeadroom, server: p.server}, nil
+}
+
+func newEndpoint(c pcfg, salt uint64) (*endpoint, error) {
+	p, err := newPeer(c, salt)
+	if err != nil {
+		return nil, err
+	}
+	return p.open()
 }
 
 // clientPack makes the real client packer produce its next packet.
